@@ -505,6 +505,11 @@ class CallGraph:
             if isinstance(r, tuple) and r[0] == "var":
                 for v in self.prog.var_values(r[1], r[2]):
                     out.extend(self._func_values(r[1].body_fn, v, depth + 1))
+            if not out and e.id not in fn.params and isinstance(fn.node, (ast.FunctionDef, ast.AsyncFunctionDef)):
+                # a local: every value assigned to it in this function (`v = table[x]` / `v = given` on the two arms of a test)
+                for n_ in ast.walk(fn.node):
+                    if isinstance(n_, ast.Assign) and any(isinstance(t_, ast.Name) and t_.id == e.id for t_ in n_.targets):
+                        out.extend(self._func_values(fn, n_.value, depth + 1))
             return out
         if isinstance(e, ast.Subscript):
             base = e.value
